@@ -161,7 +161,7 @@ bool_t mtCallOnce(size_t* once, void (*fn)())
 		if ((t = mtAtomicCmpSwap(once, 0, SIZE_MAX)) == 0)
 		{
 			// ... да, обработать захват
-			fn(), *once = 1;
+			fn(), mtAtomicCmpSwap(once, SIZE_MAX, 1);
 			break;
 		}
 	// ... нет, ожидаем обработки захвата в другом потоке
